@@ -15,6 +15,7 @@ import (
 	"go/token"
 	"math/big"
 	"os"
+	"os/exec"
 	"path/filepath"
 	"regexp"
 	"sort"
@@ -763,6 +764,12 @@ func writeIfChanged(path, content string) {
 const header = "-- GENERATED by /verif/tools/extract from the working tree of /repo. Do not edit.\n"
 
 func main() {
+	if len(os.Args) == 4 && os.Args[3] == "stage2table" {
+		// the control skeleton of unifiedMachine only (run as a child process by the main invocation, so that a
+		// refusal of this translator affects only the properties that depend on its output)
+		genStage2Table(load(os.Args[1]), os.Args[2])
+		return
+	}
 	if len(os.Args) != 3 {
 		die("usage: extract <repo dir> <out dir>")
 	}
@@ -774,7 +781,13 @@ func main() {
 	genAsmTables(repo, out)
 	genAsmScalar(repo, out)
 	genFacts(p, repo, out)
-	genStage2Table(p, out)
+	cmd := exec.Command(os.Args[0], repo, out, "stage2table")
+	if msg, err := cmd.CombinedOutput(); err != nil {
+		// leave a file that says why; every theorem about the table then fails to check, and nothing else does
+		reason := strings.TrimSpace(string(msg))
+		writeIfChanged(filepath.Join(out, "Stage2Table.lean"), header+"namespace SJ.Generated\n\n/-- the translator of `unifiedMachine` refused the source -/\ndef stage2TableRefused : String := "+strconv.Quote(reason)+"\n\nend SJ.Generated\n")
+		fmt.Fprintln(os.Stderr, "stage2table: translator refused the source: "+reason)
+	}
 }
 
 func genConsts(p *pkgInfo, out string) {
